@@ -76,6 +76,38 @@ def worker_exit_codes(srv):
     return [int(m) for m in re.findall(r"Worker \(pid:\d+\) exited with code (\d+)(?![\d.])", srv.error_log() + srv.stderr())]
 
 
+PRELOAD_SIGNALS = """
+import signal as _c03_signal
+_c03_signal.signal(_c03_signal.SIGCHLD, _c03_signal.SIG_DFL)
+for _c03_s in (_c03_signal.SIGTTIN, _c03_signal.SIGTTOU, _c03_signal.SIGHUP, _c03_signal.SIGTERM):
+    _c03_signal.signal(_c03_s, _c03_signal.SIG_IGN)
+"""
+
+
+def wait_master_stops(srv, failure_seen, give_up=None):
+    """Wait for the master to end after a boot failure.  Returns (wait status | None, seconds waited).  None = it outlived
+    the failure: either it logged a worker's exit with status 3/4 itself and was still running 15 s after we saw that line,
+    or the failure is (by `failure_seen()`, evidence from the worker's side; None = not yet) 60 s old.  On a busy machine
+    starting an interpreter takes seconds: nothing here counts from the launch."""
+    t0 = time.monotonic()
+    logged = failed = None
+    while True:
+        st = srv.wait_exit(srv.master_pid, 0.25)
+        now = time.monotonic()
+        if st is not None:
+            return st, now - t0
+        if give_up is not None and give_up():
+            return None, now - t0
+        if logged is None and any(c in (3, 4) for c in worker_exit_codes(srv)):
+            logged = now
+        if failed is None and failure_seen():
+            failed = now
+        if (logged is not None and now - logged > 15) or (failed is not None and now - failed > 60):
+            return None, now - t0
+        if now - t0 > 180:
+            return "no-failure", now - t0
+
+
 def hook_bootfail(run, e4, sc):
     """A worker that cannot boot because a server hook raises.  `late`: the first pool boots and serves, a worker is then killed
     and it is the replacement that cannot boot.  Either way the master must stop with the boot-failure status (3), must not
@@ -103,14 +135,15 @@ def hook_bootfail(run, e4, sc):
                 pass
         # a respawn loop shows within a second or two (tens of forks): no need to sit out the whole wait then
         allowed = forks0 + 2 * nw
-        t0 = time.monotonic()
-        st = None
-        forks = 0
-        while time.monotonic() - t0 < 20:
-            st = srv.wait_exit(srv.master_pid, 0.25)
-            forks = len([e for e in srv.events() if e["kind"] == "pre_fork"])
-            if st is not None or forks > allowed + 6:
-                break
+
+        def hook_failed():
+            return any(e["kind"] == sc["hook"] and e["age"] >= (nw + 1 if late else 1) for e in srv.events())
+
+        st, waited = wait_master_stops(srv, hook_failed,
+                                       give_up=lambda: len([e for e in srv.events() if e["kind"] == "pre_fork"]) > allowed + 6)
+        if st == "no-failure":
+            return v, "the failing hook never ran: %s" % srv.stderr()[-300:], info
+        forks = len([e for e in srv.events() if e["kind"] == "pre_fork"])
         info["forks"] = forks
         info["worker_exit_codes"] = worker_exit_codes(srv)[:8]
         failed = len([e for e in srv.events() if e["kind"] == sc["hook"] and e["age"] >= (nw + 1 if late else 1)])
@@ -122,10 +155,10 @@ def hook_bootfail(run, e4, sc):
                       "worker exit codes logged by the master: %s" % (forks, allowed, nw, ", one killed" if late else "", sc["hook"],
                                                                       info["worker_exit_codes"])))
         if st is None:
-            if time.monotonic() - t0 >= 20:
-                v.append(("boot-failure-did-not-stop-master", "master still running %.0f s after a worker failed to boot (%s hook "
-                          "raised), worker exit codes logged by the master: %s" % (time.monotonic() - t0, sc["hook"],
-                                                                                   info["worker_exit_codes"])))
+            if forks <= allowed + 6:
+                v.append(("boot-failure-did-not-stop-master", "master still running %.0f s after the start, long after a worker failed "
+                          "to boot (%s hook raised), worker exit codes logged by the master: %s" % (waited, sc["hook"],
+                                                                                             info["worker_exit_codes"])))
             return v, None, info
         code = None if st[0] is None else (st[0] >> 8)
         info["exit_code"] = code
@@ -302,9 +335,13 @@ def scenario(run, e4, sc):
                         app_source=BAD_APP_RAISES if kind == "bootfail3" else BAD_APP_NO_ATTR)
         try:
             srv.start()
-            st = srv.wait_exit(srv.master_pid, 20)
+            # (the worker's side of the failure: its traceback on the server's stderr / error log)
+            st, waited = wait_master_stops(srv, lambda: "Traceback" in srv.stderr() + srv.error_log() or bool(worker_exit_codes(srv)))
+            if st == "no-failure":
+                return v, "no worker got as far as failing to boot within 180 s: %s" % srv.stderr()[-300:], info
             if st is None:
-                v.append(("boot-failure-did-not-stop-master", "master still running 20 s after its workers failed to boot (%s)" % kind))
+                v.append(("boot-failure-did-not-stop-master", "master still running %.0f s after the start, long after its workers "
+                          "failed to boot (%s)" % (waited, kind)))
                 return v, None, info
             status = st[0]
             code = None if status is None else (status >> 8)
@@ -332,7 +369,16 @@ def scenario(run, e4, sc):
             return v, None, info
         finally:
             srv.cleanup()
-    srv = e4.Server("c03", worker_class=wc, workers=sc["workers"], settings={"graceful_timeout": 2, "timeout": 5})
+    settings = {"graceful_timeout": 2, "timeout": 5}
+    app_source = None
+    if sc.get("preload_signals"):
+        # the application is loaded in the master (preload_app) and its imports set signal dispositions of their own (the idiom in
+        # front of subprocess use: SIGCHLD back to the default; a library that ignores / handles the terminal and hang-up signals).
+        # The master's own handlers are what drives the pool all the same.
+        settings["preload_app"] = True
+        app_source = PRELOAD_SIGNALS + e4.APP_SOURCE
+        run.count("live_preloaded_application_sets_signal_dispositions")
+    srv = e4.Server("c03", worker_class=wc, workers=sc["workers"], settings=settings, app_source=app_source)
     try:
         srv.start()
         w0 = srv.wait_workers(sc["workers"], 25)
@@ -426,7 +472,7 @@ def scenario(run, e4, sc):
 
 
 def plan(run, tier, seed):
-    run.require("live_failed_upgrade_checks", "live_bystander_checks", "live_pool_checks", "live_boot_failure_exit_status_checks", "live_hook_boot_failure_checks",
+    run.require("live_preloaded_application_sets_signal_dispositions", "live_failed_upgrade_checks", "live_bystander_checks", "live_pool_checks", "live_boot_failure_exit_status_checks", "live_hook_boot_failure_checks",
                 "live_late_boot_failure_checks", "live_reaped_before_recorded", "live_stale_entry_dropped")
     classes = ["sync", "gthread", "gevent", "eventlet"]
     hs = [
@@ -448,6 +494,9 @@ def plan(run, tier, seed):
         out.append(dict(h, kind="history", **{"class": classes[(i + seed) % 4]}))
     for i, h in enumerate(fast):
         out.append(dict(h, kind="history", **{"class": classes[(i + seed) % 4]}))
+    # a preloaded application whose imports set signal dispositions in the master
+    out.append({"kind": "history", "workers": 2, "preload_signals": True, "class": classes[(seed + 1) % 4],
+                "steps": [["kill", 1], ["sleep", 0.5], ["ttin"], ["kill", 2], ["sleep", 0.5], ["hup", 2]]})
     out.append({"kind": "failed_upgrade", "workers": 2, "class": classes[(seed + 2) % 3]})
     out.append({"kind": "upgraded", "workers": 2, "steps": [["kill", 1], ["sleep", 0.5], ["ttin"], ["kill", 2]], "class": classes[(seed + 1) % 3]})
     out.append({"kind": "bootfail3", "workers": 1, "class": "sync"})
@@ -485,7 +534,7 @@ def shard(run, sh):
         v, reason, info = scenario(run, e4, sc)
         if reason is None or v:
             break
-    run.case(("live", sc["kind"], sc["class"], sc["workers"], str(sc.get("steps")), sc.get("hook"), sc.get("late"), sc.get("nth")))
+    run.case(("live", sc["kind"], sc["class"], sc["workers"], str(sc.get("steps")), sc.get("hook"), sc.get("late"), sc.get("nth"), sc.get("preload_signals")))
     run.count("live_scenarios")
     for mech, summary in v:
         run.violation(mech, summary + " | info=%s" % info, {"live": sc})
